@@ -3,6 +3,7 @@ and what the evidence says about how cases are generated."""
 import json
 import os
 import subprocess
+import sys
 import time
 
 import orchestrate as o
@@ -375,4 +376,189 @@ PLANS["C06"] = generic(
     min_evaluations=300_000,
     exhaustive=True,
     assumptions=["cells where a parameter declared 'any' receives an expression reference are unconstrained and counted"],
+)
+
+
+def c07_plan(pid, tier, seed, t0):
+    builds = ["chk", "rel"]
+    rundir, staged = o.prepare(builds)
+    n = 160_000 if tier == "quick" else 12_000_000
+    per = (n + o.NCPU - 1) // o.NCPU
+    merged = None
+    py_records = 0
+    py_kinds = {}
+    for b in builds:
+        bdir = os.path.join(rundir, b)
+        os.makedirs(bdir, exist_ok=True)
+        # one records file per shard; run_shards passes identical extra args, so shard-specific paths are derived here
+        procs = []
+        for s in range(o.NCPU):
+            out = os.path.join(bdir, "c07.%d.json" % s)
+            recs = os.path.join(bdir, "c07.%d.records" % s)
+            cmd = [staged[b], "c07", "--seed", str(seed), "--n", str(per), "--shard", "%d/%d" % (s, o.NCPU), "--tier", tier, "--out", out,
+                   "--records", recs, "--build", b]
+            procs.append((s, subprocess.Popen(cmd, stdout=subprocess.PIPE, stderr=subprocess.PIPE, env=o.ENV), out, recs))
+        reports = []
+        checkers = []
+        for s, p, out, recs in procs:
+            so, se = p.communicate()
+            if p.returncode != 0 or not os.path.exists(out):
+                reports.append({"died": "exit %s" % p.returncode, "shard": s, "stderr": se.decode("utf-8", "replace")[-1500:]})
+                continue
+            reports.append(json.load(open(out)))
+            checkers.append(subprocess.Popen([sys.executable, os.path.join(o.VERIF, "py", "check_slices.py"), recs], stdout=subprocess.PIPE,
+                                             stderr=subprocess.PIPE, text=True))
+        m = o.merge(reports)
+        for c in checkers:
+            so, se = c.communicate()
+            if c.returncode != 0:
+                m["harness_errors"].append("check_slices.py failed: %s" % se[-500:])
+                continue
+            res = json.loads(so)
+            py_records += res["records"]
+            for k, v in res["kinds"].items():
+                py_kinds[k] = py_kinds.get(k, 0) + v
+            for v in res["violations"]:
+                v["witness"]["build"] = b
+                m["violations"].append(v)
+                m["violations_total"] += 1
+        if merged is None:
+            merged = m
+        else:
+            merged["evaluations"] += m["evaluations"]
+            merged["distinct"].update(m["distinct"])
+            merged["violations"] += m["violations"]
+            merged["violations_total"] += m["violations_total"]
+            merged["harness_errors"] += m["harness_errors"]
+            merged["died"] += m["died"]
+            for k, v in m["observed"].items():
+                merged["observed"]["%s@%s" % (k, b)] = v
+    cfg = {
+        "rule": "EXHAUSTIVE: array lengths 0..8 x start, stop, step each in {omitted} U [-11, 11] (124416 triples incl. step 0) and all indexes -12..12; "
+        "the extreme grid {omitted, 0, +-1, +-(2^31-1), +-(2^31-2), +-2^30, +-65536}^3 x lengths 0..12; plus random triples over the whole i32 range "
+        "with lengths <= 64; every case through search('@[a:b:c]') AND Variable::slice directly; non-array subjects of every JSON type; under the "
+        "overflow-checked and the wrapping build. The driver records (len, start, stop, step, result); CPython's list(range(len))[a:b:c] decides "
+        "offline (py/check_slices.py); an in-process i128 rule cross-checks. Arrays hold their own indexes, so a result identifies exactly which "
+        "elements were selected. Non-trivial = non-empty result or a clamped endpoint; distinct by (len, start, stop, step).",
+        "min_evaluations": 250_000,
+        "assumptions": COMMON_ASSUMPTIONS + ["CPython's slice semantics are the specification (the statement says so)",
+                                              "Variable::slice cannot express the step-0 error (returns Option<Vec>); it is not called with step 0"],
+        "exhaustive": True,
+    }
+    if py_records == 0:
+        merged["harness_errors"].append("the Python oracle saw no records")
+    extra_cov = {"builds": builds, "python_checked_records": py_records, "python_record_kinds": py_kinds}
+    return o.conclude(pid, tier, seed, merged, cfg, t0, extra_cov)
+
+
+PLANS["C07"] = c07_plan
+
+
+def c10_plan(pid, tier, seed, t0):
+    extra = "150" if tier == "quick" else "700"
+    return generic(
+        "c10",
+        rule="a pool of JSON values (every type; strings that look like other types; ~70 number spellings incl. int/float spellings of the same "
+        "number, 0/-0/0.0, 2^53+-1, i64/u64 extremes, 1e+-300, 1e308-scale pairs, subnormals; nested containers differing in one leaf, order or "
+        "key; empty containers; %s random nested values) — ALL ordered pairs of the pool are evaluated under the six operators in two forms "
+        "(fields of a {l, r} document; backtick literals). Oracle: independent structural equality with numbers compared exactly from their "
+        "decimal spellings; laws: == reflexive/symmetric, != its negation, different types never equal, ordering operators boolean iff both "
+        "numbers else null, and for identical or well-separated (relative difference > 1e-9) numbers trichotomy, <=/>= consistency and "
+        "agreement with numeric order. Non-trivial = every law held on an (l, r, form) triple; distinct by that triple." % extra,
+        n_quick=1,
+        n_thorough=1,
+        min_evaluations=500_000,
+        exhaustive=True,
+        needs_ref=False,
+        extra_args=["--extra", extra],
+        assumptions=["nothing is asserted about ==/trichotomy for distinct numbers closer than 1e-9 relative (documented tolerant float equality)"],
+    )(pid, tier, seed, t0)
+
+
+PLANS["C10"] = c10_plan
+
+
+def records_plan(sub, checker, rule, n_quick, n_thorough, builds=("chk",), min_evaluations=1000, assumptions=(), exhaustive=False):
+    """Plan for monitors whose deciding oracle is an offline Python checker over a
+    recorded event log (one records file per shard)."""
+    def plan(pid, tier, seed, t0):
+        rundir, staged = o.prepare(list(builds))
+        n = n_quick if tier == "quick" else n_thorough
+        per = (n + o.NCPU - 1) // o.NCPU
+        merged = None
+        py_stats = {}
+        for b in builds:
+            bdir = os.path.join(rundir, b)
+            os.makedirs(bdir, exist_ok=True)
+            procs = []
+            for s in range(o.NCPU):
+                out = os.path.join(bdir, "%s.%d.json" % (sub, s))
+                recs = os.path.join(bdir, "%s.%d.records" % (sub, s))
+                cmd = [staged[b], sub, "--seed", str(seed), "--n", str(per), "--shard", "%d/%d" % (s, o.NCPU), "--tier", tier, "--out", out,
+                       "--records", recs, "--build", b]
+                procs.append((s, subprocess.Popen(cmd, stdout=subprocess.PIPE, stderr=subprocess.PIPE, env=o.ENV), out, recs))
+            reports, checkers = [], []
+            for s, p, out, recs in procs:
+                so, se = p.communicate()
+                if p.returncode != 0 or not os.path.exists(out):
+                    reports.append({"died": "exit %s" % p.returncode, "shard": s, "stderr": se.decode("utf-8", "replace")[-1500:]})
+                    continue
+                reports.append(json.load(open(out)))
+                checkers.append(subprocess.Popen([sys.executable, os.path.join(o.VERIF, "py", checker), recs], stdout=subprocess.PIPE,
+                                                 stderr=subprocess.PIPE, text=True))
+            m = o.merge(reports)
+            for c in checkers:
+                so, se = c.communicate()
+                if c.returncode != 0:
+                    m["harness_errors"].append("%s failed: %s" % (checker, se[-500:]))
+                    continue
+                res = json.loads(so)
+                for k, v in res.get("stats", {}).items():
+                    py_stats[k] = py_stats.get(k, 0) + v
+                for v in res["violations"]:
+                    v["witness"]["build"] = b
+                    m["violations"].append(v)
+                    m["violations_total"] += 1
+            if merged is None:
+                merged = m
+            else:
+                merged["evaluations"] += m["evaluations"]
+                merged["distinct"].update(m["distinct"])
+                merged["violations"] += m["violations"]
+                merged["violations_total"] += m["violations_total"]
+                merged["harness_errors"] += m["harness_errors"]
+                merged["died"] += m["died"]
+                for k, v in m["observed"].items():
+                    merged["observed"]["%s@%s" % (k, b)] = v
+        if not py_stats.get("records"):
+            merged["harness_errors"].append("the Python oracle saw no records")
+        cfg = {"rule": rule, "min_evaluations": min_evaluations, "assumptions": COMMON_ASSUMPTIONS + list(assumptions), "exhaustive": exhaustive}
+        return o.conclude(pid, tier, seed, merged, cfg, t0, {"builds": list(builds), "python_oracle": py_stats})
+    return plan
+
+
+PLANS["C08"] = records_plan(
+    "c08", "check_json.py",
+    rule="generated hostile JSON texts (integers at and beyond the i32/2^53/i64/u64 boundaries and 18-25 digits; decimals with 1..25 significant "
+    "digits and exponents -330..+310 incl. subnormals and overflow; -0 spellings; strings over every escape form, \\uXXXX in both cases, surrogate "
+    "pairs, lone surrogates, NUL/DEL/U+FFFF/astral; nesting 120..131; duplicate keys; whitespace variants) go through Variable::from_json -> "
+    "search('@') -> to_string. The driver records (input, output | error); CPython's json module with integers as int and other numerals as Decimal "
+    "is the independent reader and decides leaf by leaf (integers exact and integer-spelled; <=15 digits & |exp|<=22 exact double; other numerals "
+    "within 2 ulp; strings by code point; arrays in order; objects by key set, last duplicate wins); rejection is allowed only for depth>=128, lone "
+    "surrogates, numerals out of double range. In-process: print->reparse equal (bit-identical, or within the reader's 2 ulp), Variable -> "
+    "serde_json::Value -> Variable (owned and borrowed) identical. Non-trivial = accepted text longer than 8 bytes; distinct by text.",
+    n_quick=200_000, n_thorough=8_000_000, min_evaluations=100_000,
+    assumptions=["the spelling of negative zero is not asserted ('-0' comes back as '-0.0')", "CPython's json/Decimal are a correct JSON reader"],
+)
+
+PLANS["C09"] = generic(
+    "c09",
+    rule="(1) decoder agreement: random token source text (<=24 chars over an alphabet weighted to backslash, the three delimiters, u/hex digits, "
+    "controls, NUL, DEL, Latin-1, CJK, astral, U+FFFF, U+10FFFF) wrapped as raw string, backtick literal and quoted identifier; the crate's value must "
+    "equal the independent decoder's, and forms the decoder rejects must fail to compile; ALL bodies of length <=3 over the 8 most dangerous "
+    "characters are enumerated in the three forms; (2) round-trip laws: raw spelling of s evaluates to s (where the language has a spelling), three "
+    "JSON spellings of v with backticks escaped evaluate to v, three JSON-string spellings of k select the marker from an object that also holds "
+    "near-miss keys (also as multi-select-hash key and sub-expression); (3) unquoted identifiers; (4) 24 malformed forms are rejected. Non-trivial = "
+    "source containing a backslash or non-ASCII character; distinct by source text.",
+    n_quick=240_000, n_thorough=12_000_000, min_evaluations=300_000, needs_ref=False,
 )
